@@ -43,6 +43,35 @@ func main() {
 		os.Exit(runList(repo, verif))
 	case "replay":
 		os.Exit(runReplay(repo, verif, os.Args[2]))
+	case "shapes":
+		e, err := newEngine(repo, verif, nil)
+		if err != nil {
+			fmt.Fprintln(os.Stderr, err)
+			os.Exit(3)
+		}
+		for _, fn := range e.allFuncs {
+			if len(os.Args) > 2 && !strings.Contains(e.shortName(fn), os.Args[2]) {
+				continue
+			}
+			seen := map[string]int{}
+			for _, b := range fn.Blocks {
+				for _, ins := range b.Instrs {
+					for _, sh := range e.instrShape(ins) {
+						seen[sh]++
+					}
+				}
+			}
+			fmt.Println("==", e.shortName(fn))
+			var ks []string
+			for k := range seen {
+				ks = append(ks, k)
+			}
+			sort.Strings(ks)
+			for _, k := range ks {
+				fmt.Printf("   %3d  %s\n", seen[k], k)
+			}
+		}
+		os.Exit(0)
 	case "selftest":
 		os.Exit(runSelftest(repo, verif, os.Args[2:]))
 	default:
